@@ -126,6 +126,7 @@ REJECTIONS = {
     "non-aufbau": (dict(mo="fractional"), ("fchk",), (False, True)),
     "non-aufbau-beta-hole": (dict(mo="beta-hole"), ("fchk",), (False, True)),
     "non-aufbau-aminusb": (dict(mo="aminusb"), ("fchk",), (False, True)),
+    "non-aufbau-fractional-beta": (dict(mo="unrestricted-fractional-beta"), ("fchk",), (False, True)),
 }
 
 
